@@ -561,7 +561,10 @@ pub fn step(ex: &mut Exec, ix: usize, op: &Op) {
                     }
                 }
             }
-            ex.rec(ix, op, &format!("{} | {} parked={}", got[0], got[1], site.unwrap_or("-")));
+            // the parking site is not part of the recorded history: whether a thread could be parked
+            // depends on process-wide state of the harness (preemption is switched off after a
+            // blocked release), the results do not
+            ex.rec(ix, op, &format!("{} | {}", got[0], got[1]));
             if site.is_some() {
                 ex.out.faults[F_PREEMPT] += 1;
                 ex.out.nontrivial = true;
